@@ -48,7 +48,8 @@ def case_kernel(draw):
                            + (0 if draw(st.booleans()) else shape[ax] - 1))
         coords.append(row)
     return {"kind": "kernel", "shape": shape, "vals": draw(st.lists(st.integers(-4000, 4000), min_size=n, max_size=n)),
-            "int_input": draw(st.integers(0, 4)) == 0, "batch": batch, "coords": coords}
+            "int_input": draw(st.integers(0, 4)) == 0, "batch": batch, "coords": coords,
+            "int_coords": draw(st.sampled_from([None, None, None, None, "int32", "int64", "pyint"]))}
 
 
 @st.composite
@@ -85,12 +86,21 @@ def check_kernel(case):
     coords = np.asarray(case["coords"], dtype=float)
     if case["int_input"]:
         coords = np.round(coords)  # integer-coordinate clause for integer arrays
+    ic = case.get("int_coords")
+    if ic:
+        # whole-number coordinates (inside and outside the index range) given in an INTEGER type
+        coords = np.round(coords)
     if case["batch"] == 0:
         cj = [jnp.asarray(c[0]) for c in coords]
         cn = [np.asarray(c[0]) for c in coords]
     else:
         cj = [jnp.asarray(c) for c in coords]
         cn = [np.asarray(c) for c in coords]
+    if ic == "pyint" and case["batch"] == 0:
+        cj = [int(c[0]) for c in coords]
+    elif ic:
+        dt_c = jnp.int32 if ic == "int32" else jnp.int64
+        cj = [jnp.asarray(np.asarray(c).astype(np.int64), dtype=dt_c) for c in cn]
     got = np.asarray(call_lcm(map_coordinates, jnp.asarray(arr), cj))
     exp = interp_multilinear(arr.astype(float), cn)
     msgs = []
